@@ -109,10 +109,36 @@ def private_state(ctx, prog, rule):
     ctx.ob(rule, "page-reader-fields-private", not pf, "public fields of PagedReader: %s" % pf, nontrivial=False)
     # descriptor state of E57Reader is written only by its constructor
     writers = set()
+    e57_fields = [fl["name"] for fl in prog.adt("e57_reader::E57Reader")["variants"][0]["fields"]]
     for p, f in prog.fns.items():
-        for fld in ("xml", "root", "pointclouds", "images", "extensions", "header", "reader"):
+        if short(p) in ("E57Reader::new", "E57Reader::<T>::new"):
+            continue
+        for fld in e57_fields:
             if field_assignments(f, "e57_reader::E57Reader", fld) or field_mut_borrows(f, "e57_reader::E57Reader", fld):
                 writers.add((short(p), fld))
     allowed = {("E57Reader::pointcloud_simple", "reader"), ("E57Reader::pointcloud_raw", "reader"), ("E57Reader::blob", "reader")}
     extra = sorted(writers - allowed)
     ctx.ob(rule, "descriptors-immutable", not extra, "functions that assign or mutably borrow E57Reader state: %s; only the three read operations may borrow `reader` mutably, nothing else is ever modified after new(): %s" % (sorted(writers), extra))
+
+
+def reader_state_inventory(ctx, prog, rule):
+    """state that survives from one read operation to the next is what makes results depend on history.  The page
+    reader may change exactly its cursor and its (typestate-checked) page cache after construction; a new field that
+    is assigned by a read path (a remembered failure, a cache of results) is unreviewed history."""
+    # reader: the device handle; its position is re-established by the absolute seek that dominates every page load
+    # (C07-R3).  crc: Crc32::calculate takes &mut self but never writes its table (C07-R5 looks at every store).
+    allowed = {"paged_reader::PagedReader": {"page_num", "page_buffer", "offset", "reader", "crc"}}
+    for adt, ok_fields in allowed.items():
+        a = prog.adt(adt)
+        fields = [fl["name"] for fl in a["variants"][0]["fields"]]
+        mutated = {}
+        for p, f in prog.fns.items():
+            if p.endswith("::new"):
+                continue
+            for fld in fields:
+                if field_assignments(f, adt, fld) or field_partial_writes(f, adt, fld) or (fld not in ok_fields and field_mut_borrows(f, adt, fld)):
+                    mutated.setdefault(fld, set()).add(short(p))
+        extra = {k: sorted(v) for k, v in mutated.items() if k not in ok_fields}
+        ctx.ob(rule, "reader-state/%s" % adt.rsplit("::", 1)[-1], not extra,
+               "fields of %s changed after construction: %s (reviewed: %s)%s" % (adt.rsplit("::", 1)[-1], {k: sorted(v) for k, v in mutated.items()}, sorted(ok_fields),
+                                                                               "" if not extra else "; unreviewed state: %s" % extra))
